@@ -19,9 +19,15 @@ import (
 // that was running, so that bin/check reports a concrete replay.
 func Main(prop, rule string, quick, thorough Budget) {
 	if os.Getenv("COPYH_CHILD") == "" {
-		os.Exit(parent())
+		os.Exit(Parent())
 	}
 	run := common.Start(prop)
+	RunAll(run, prop, rule, quick, thorough)
+}
+
+// RunAll is the child part: all streams, then the statistics.  In the test binary
+// (controlled schedules need testing/synctest) common.Start is called from TestMain.
+func RunAll(run *common.Run, prop, rule string, quick, thorough Budget) {
 	run.Rule = rule
 	b := quick
 	if run.Thorough() {
@@ -45,7 +51,8 @@ func argValue(name string) string {
 
 func currentCasePath(dir string) string { return filepath.Join(dir, "current_case.json") }
 
-func parent() int {
+// Parent runs the harness in a child process (see Main).
+func Parent() int {
 	cmd := exec.Command(os.Args[0], os.Args[1:]...)
 	cmd.Env = append(os.Environ(), "COPYH_CHILD=1")
 	var errb bytes.Buffer
